@@ -485,7 +485,20 @@ func (x *Exec) setInner(s *State, name string, leafSort Sort, rgn Term, arr Term
 // load reads a value of type t stored at (rgn, off) of memory prefix.
 func (x *Exec) load(s *State, prefix string, t types.Type, rgn, off Term) Value {
 	v := x.build(t, "", func(l leaf) Term {
-		return x.rd(s, prefix+l.path, l.sort, rgn, off)
+		r := x.rd(s, prefix+l.path, l.sort, rgn, off)
+		// A region identifier read from a memory that nothing has written or forgotten
+		// since the function was entered names an object that existed on entry: it
+		// differs from every region this function allocates.
+		if strings.HasSuffix(l.path, ".rgn") && l.sort == SBV64 {
+			if m, ok := s.mem[prefix+l.path]; ok && m.S == lazyMemName(prefix+l.path, 0) {
+				key := "pre:" + r.S
+				if !s.embSeen[key] {
+					s.embSeen[key] = true
+					s.assume(Ult(r, BVLit(firstAlloc, 64)))
+				}
+			}
+		}
+		return r
 	}, func(path string, at *types.Array) Value {
 		return &ArrayRef{Rgn: x.embRgn(s, prefix+path, at, rgn, off), Off: I64(0), N: at.Len()}
 	})
